@@ -208,9 +208,9 @@ def main(argv):
             known_hits[k] = known_hits.get(k, 0) + 1
             continue
         nviol += 1
-        dk = (v.get("kind"), v.get("finding_key"))
+        dk = (v.get("kind"), v.get("finding_key"), v.get("detail", "")[:60])
         exit_code = 1
-        if dk in seen_v or len(seen_v) >= 5:
+        if dk in seen_v or len(seen_v) >= int(os.environ.get("VERIF_MAX_REPORT", "8")):
             continue
         seen_v.add(dk)
         path = write_replay(pid, v)
@@ -222,7 +222,7 @@ def main(argv):
     # ---- verdict: inconclusive?
     reasons = []
     if dead:
-        reasons.append("workers-dead:" + ";".join(f"b{b}:{why[:300]}" for b, why in dead[:3]))
+        reasons.append("workers-dead:" + ";".join(f"b{b}:{why[-700:]}" for b, why in dead[:3]))
     if hasattr(mod, "inconclusive"):
         try:
             r = mod.inconclusive(counters, sigs, tier)
